@@ -61,9 +61,11 @@ pub fn random_cepstrum(rng: &mut Rng, n: usize, alpha: f64, target_shape: f64) -
 }
 
 pub fn alpha_pick(rng: &mut Rng) -> f64 {
-    match rng.below(5) {
+    match rng.below(6) {
         0 => 0.0,
         1 => *rng.pick(&[0.31, 0.42, 0.55]),
+        // tiny but non-zero warping, and the top of the range
+        2 => *rng.pick(&[1e-3, 5e-3, 9.9e-3, 1e-6, 0.6, 0.599]),
         _ => rng.uniform(0.0, 0.6),
     }
 }
